@@ -320,6 +320,60 @@ def head_states(chk):
             chk.coverage["traces_validated_against_impl"] += 1
 
 
+def clean_with_an_index_that_cannot_be_removed(chk):
+    """"the index never outlives its data": `cond clean` removes the version index FIRST; when that fails (cond-out is not
+    writable for the user: a shared directory, `chmod a-w`, an immutable file) the command must stop -- non-zero -- with
+    every recorded version's directory intact, also those in package directories that COULD be removed.  Run without the
+    capabilities that let root ignore permissions.  (Seed C06/m: the error was remembered, rmtree ran all the same, and the
+    message came afterwards: all rows kept, the outputs of every package gone.)"""
+    import shutil
+    import subprocess
+    import implrun
+    from common import PY, SRC
+
+    setpriv = shutil.which("setpriv")
+    if os.geteuid() == 0 and setpriv is None:
+        chk.coverage["clean_unremovable_index"] = "skipped: needs setpriv when run as root"
+        return
+    drop = "-dac_override,-dac_read_search,-fowner"
+    pre = [setpriv, "--bounding-set=" + drop, "--inh-caps=" + drop] if os.geteuid() == 0 else []
+    root = implrun.make_project({"COND": 'run_experiment(name="top", run="echo t > $COND_OUT/r")\n', "pkg/COND": 'run_experiment(name="exp", run="echo e > $COND_OUT/r; mkdir $COND_OUT/d; echo x > $COND_OUT/d/f")\n',
+                                 "pkg/deep/COND": 'run_experiment(name="exp", run="echo d > $COND_OUT/r")\n'})
+    for t in ("//:top", "//pkg:exp", "//pkg/deep:exp"):
+        implrun.run_cond(["run", t], root)
+    co = os.path.join(root, "cond-out")
+    rows = implrun.index_rows(root)
+    snaps = {}
+    for t, ts, _c, _d in rows:
+        rel = os.path.join(t[2:].split(":")[0], "%s.task.%d" % (t.split(":")[1], ts))
+        snaps[rel] = implrun.tree_snapshot(os.path.join(co, rel))
+    os.chmod(co, 0o555)                      # entries of cond-out itself (the index, top.task.*, pkg/) cannot be unlinked; what is inside pkg/ can
+    try:
+        r = subprocess.run(pre + [PY, "-m", "conductor", "clean", "-f"], cwd=root, env=dict(os.environ, PYTHONPATH=SRC), capture_output=True, text=True, timeout=60)
+    finally:
+        os.chmod(co, 0o755)
+    chk.coverage["evaluations"] += 1
+    chk.count("clean", "index cannot be removed")
+    rows_after = implrun.index_rows(root)
+    problems = []
+    if len(rows) != 3:
+        problems.append("harness: set-up recorded %r" % rows)
+    if r.returncode == 0:
+        problems.append("`cond clean -f` exited 0 although the version index could not be removed")
+    if rows_after != rows:
+        problems.append("the recorded versions changed: %r -> %r" % (rows, rows_after))
+    for rel, snap in sorted(snaps.items()):
+        now = implrun.tree_snapshot(os.path.join(co, rel)) if os.path.isdir(os.path.join(co, rel)) else None
+        if now != snap:
+            problems.append("the version %s is still recorded but its directory %s" % (rel, "is gone" if now is None else "lost %d of %d entries" % (len(set(snap) - set(now)), len(snap))))
+    for msg in problems[:2]:
+        chk.violation("impl-violation", "`cond clean -f` in a project whose cond-out is not writable: %s" % msg,
+                      {"input": {"part": "clean-unremovable-index", "without_capabilities": bool(pre)}, "impl_observation": {"exit": r.returncode, "stderr": r.stderr[-300:]}, "oracle_verdict": msg},
+                      match_key={"part": "clean-unremovable-index"}, size=2)
+    if not problems:
+        chk.coverage["traces_validated_against_impl"] += 1
+
+
 def durability_assumption(chk):
     """The model's (and the theorems') view of the version index: a process that dies loses exactly its open
     transaction.  sqlite guarantees that only with an on-disk rollback journal (or WAL) and synchronous writes, so
@@ -547,6 +601,7 @@ def run(tier, seed, replay=None):
     slow_consumer(chk)
     task_removes_its_output(chk)
     background_writer(chk, "C06")
+    clean_with_an_index_that_cannot_be_removed(chk)
     import c13 as _c13  # pylint: disable=import-outside-toplevel
 
     _c13.recorded_versions_are_not_explored(chk)    # gc never reaches into a recorded version
